@@ -82,7 +82,7 @@ func specFoldMul(m *MultExp, env Env, n int) int64 {
 }
 
 //@ func (*MultExp).Eval
-//@ props C06 C11
+//@ props C06 C11 C14
 //@ requires[A1] m != nil && env != nil && m.HeadExp != nil && len(m.Operators) == len(m.TailExps)
 //@ requires[A11] forall(0, len(m.TailExps), func(k int) bool { return m.TailExps[k] != nil })
 //@ loop 0 invariant len(evalTailExps) == len(m.TailExps) && forall(0, iter, func(k int) bool { return evalTailExps[k] == specEval(m.TailExps[k], env) }) && (allTailsAreNumbers ==> forall(0, iter, func(k int) bool { return specIsNum(evalTailExps[k]) }))
@@ -153,7 +153,7 @@ func specConstTail(terms []Exp, ops []string, c int, n int) bool {
 }
 
 //@ func (*AddExp).Eval
-//@ props C06 C11
+//@ props C06 C11 C14
 //@ requires[A1] a != nil && env != nil && a.HeadExp != nil && len(a.Operators) == len(a.TailExps)
 //@ requires[A11] forall(0, len(a.TailExps), func(k int) bool { return a.TailExps[k] != nil })
 //@ loop 0 invariant[sum] constSum == specSumAdd(a, env, iter)
@@ -200,7 +200,7 @@ func specMacroBody(env Env, name string) Exp {
 }
 
 //@ func (*ImmExp).Eval
-//@ props C06 C11 C03
+//@ props C06 C11 C03 C14
 //@ requires[A1] imm != nil && env != nil
 //@ requires[A12] !specIsIdentFactor(imm.Factor) || !specMacroDefined(env, specIdentName(imm.Factor)) || specMacroBody(env, specIdentName(imm.Factor)) != nil
 //@ ensures[number] specIsNumberFactor(imm.Factor) ==> result1 && specIsNum(result0) && specNumVal(result0) == int64(specNumberFactorVal(imm.Factor))
